@@ -171,6 +171,8 @@ def check(ctx):
     v = model.module_value("apischema.conversions.converters", "default_deserialization")
     ctx.check(norm(v) == "_deserializers.get", "C12.R4", "default_deserialization", v, "default_deserialization must be the exact-type lookup", None, None, detail="_deserializers.get")
 
+    subtyping_rule(ctx, "C12.R11")
+
     # ---------------- R10: generic conversions are specialised at any depth
     ctx.rule("C12.R10", "a generic conversion (source / target mentioning type variables) is specialised with the arguments of the visited type wherever the variables occur - List[List[T]] as well as List[T]: the test guarding substitute_type_vars looks at the alias's __parameters__, not at its top-level arguments only", floor=2)
     n10 = 0
@@ -263,7 +265,30 @@ def check(ctx):
             ctx.check(ok, "C12.R8", construct, c, f"`{short(c, 70)}` drops Annotated metadata: a source / target / return type declared `Annotated[T, schema(...)]` loses its constraints, so the converted type no longer rejects what its source rejects and its JSON schema is not the source's", fi, c, detail="include_extras=True")
 
 
+def subtyping_rule(ctx, rule):
+    model = ctx.model
+    # ---------------- R11: which base of the converted type binds the variables of a generic conversion
+    ctx.rule(rule, "subtyping_substitution pairs the arguments of the generic conversion's source with those of the first base (in the generic MRO of the converted type) that is the same class, or a plain collection when the source is a plain collection too: a user generic subclass of a collection (class Registry(Dict[str, T])) is matched at its collection base, where the arguments line up", floor=1)
+    sub_f = model.func("apischema.utils.subtyping_substitution")
+    return_from_check = False
+    guards11 = [n for n in ast.walk(sub_f.node) if isinstance(n, ast.If) and any(isinstance(x, ast.Break) for x in n.body)]
+    ctx.require(len(guards11) == 1, "subtyping_substitution: the test selecting the matching base was not found")
+    g11 = guards11[0]
+    ev11 = BoolEval({"base_origin == super_origin": "same", "base_origin in ITERABLE_TYPES": "base_plain", "super_origin in ITERABLE_TYPES": "super_plain",
+                     "is_subclass(base_origin, super_origin)": "sub", "issubclass(base_origin, super_origin)": "sub"})
+    try:
+        got11 = ev11.compile(g11.test)
+        bad11 = next((v for v in valuations(["same", "base_plain", "super_plain", "sub"], lambda v: (not v["same"]) or v["sub"])
+                      if bool(got11(v)) != bool(v["same"] or (v["base_plain"] and v["super_plain"]))), None)
+        ctx.check(bad11 is None, rule, f"{sub_f.qualname}:matching-base", None,
+                  f"`if {short(g11.test, 80)}` selects another base under [{show(bad11) if bad11 else ''}]: e.g. the user class itself when it is a subclass of the abstract source - `Registry[int]` (a Dict[str, T]) converted by `f(m: Mapping[K, V]) -> List[Tuple[K, V]]` binds K=int and leaves V unbound, the serialization schema says `[[integer, any]]` for data [['a', 1]]",
+                  sub_f, g11, detail="base_origin == super_origin or (base_origin in ITERABLE_TYPES and super_origin in ITERABLE_TYPES)")
+    except Unknown as err:
+        ctx.undecided(rule, f"{sub_f.qualname}: {err}")
+
+
 def mutants(mb):
+    mb.add_text("substitution-matches-subclass-of-abstract-source", "apischema/utils.py", "            base_origin in ITERABLE_TYPES and super_origin in ITERABLE_TYPES\n", "            super_origin in ITERABLE_TYPES and is_subclass(base_origin, super_origin)\n", "C12.R11", "matching-base")
     mb.add_text("generic-conversion-top-level-vars", "apischema/conversions/visitor.py", "    return is_type_var(tp) or (\n        not isinstance(tp, type) and bool(getattr(tp, \"__parameters__\", ()))\n    )\n", "    from apischema.utils import get_args2\n\n    return is_type_var(tp) or any(map(is_type_var, get_args2(tp)))\n", "C12.R10", "_has_conversion")
     mb.add_text("lazy-bare-converter-not-inherited", "apischema/conversions/conversions.py", "        if isinstance(conversion, Conversion):\n            return conversion.inherited\n        # a bare converter is inherited, as when it is registered directly\n        return None if conversion is not None else False\n", "        return isinstance(conversion, Conversion) and conversion.inherited\n", "C12.R9", "bare-converter")
     CVp = "apischema/conversions/visitor.py"
